@@ -62,7 +62,10 @@ class RustSRPAnalyzer(RustBaseAnalyzer):
         Returns:
             The type identifier name (e.g., "Foo" from "impl Foo {}")
         """
-        for child in impl_node.children:
+        # The implementing type, also for trait impls ("impl Display for Foo" targets Foo, not Display)
+        target = impl_node.child_by_field_name("type")
+        candidates = [target] if target is not None else impl_node.children
+        for child in candidates:
             if child.type == "type_identifier":
                 return self.extract_node_text(child)
             if child.type == "generic_type":  # impl<T> Foo<T> {}
